@@ -52,6 +52,14 @@ func ParseOp(query string, vars map[string]any) (*Op, error) {
 					return err
 				}
 				s.Incl = b
+			case "dfield", "dfield2":
+				if a := d.Arguments.ForName("tag"); a != nil {
+					if v, err := a.Value.Value(vars); err == nil {
+						if t, ok := v.(string); ok {
+							s.QDirs = append(s.QDirs, t)
+						}
+					}
+				}
 			case "defer":
 				b, err := boolArg(d, true)
 				if err != nil {
